@@ -256,7 +256,8 @@ def r15_3(chk, mod):
                 for r in nq.returns)
     chk.ob("R15.3", MOD, "needs_quote", "the empty string is quoted (written bare there is no value and the reader takes the next line)", empty,
            fingerprint="quote-empty", found=[f"{r.value} if {[('' if p else 'not ') + str(c)[:40] for c, p in r.guards][-1:]}" for r in nq.returns][:4])
-    gtext = " ".join(c.key() for r in nq.returns for c, pol in r.guards)
+    # what decides the answer: the conditions on the way to each return and boolean expressions returned directly
+    gtext = " ".join([c.key() for r in nq.returns for c, pol in r.guards] + [r.value.key() for r in nq.returns if r.value.key() not in ("True", "False")])
     reserved = all(tok in gtext for tok in ("_", "#", "data_", "loop_")) and (f"{sp}[0]" in gtext or "startswith" in gtext)
     chk.ob("R15.3", MOD, "needs_quote", "a string starting with a reserved token ('_', '#', 'data_', 'loop_') is quoted (bare, the reader takes the line "
            "for a data name, a comment or a new block and ends the loop)", reserved, fingerprint="quote-reserved", found=gtext[:200])
@@ -292,12 +293,16 @@ def r15_3(chk, mod):
     nq = mod.ev("needs_quote")
     chk.saw(MOD, "needs_quote")
     last = nq.returns[-1].value
-    la = last.as_atom()
     has_space = False
-    if la and la[0] == "and":
-        has_space = any(x.as_atom() and x.as_atom()[0] == "in" and string_value(x.as_atom()[1]) == " " for x in la[1])
-    elif la and la[0] == "in":
-        has_space = string_value(la[1]) == " "
+    for r in nq.returns:
+        ra = r.value.as_atom()
+        if r.value.key() == "True":
+            # if " " in string: return True
+            has_space = has_space or any(pol and c.as_atom() and c.as_atom()[0] == "in" and string_value(c.as_atom()[1]) == " " for c, pol in r.guards)
+        elif ra and ra[0] == "and":
+            has_space = has_space or any(x.as_atom() and x.as_atom()[0] == "in" and string_value(x.as_atom()[1]) == " " for x in ra[1])
+        elif ra and ra[0] == "in":
+            has_space = has_space or string_value(ra[1]) == " "
     chk.ob("R15.3", MOD, "needs_quote", "strings containing a blank are the ones that get quoted (unquoted strings are one \\S+ token)",
            has_space, found=str(last))
     # tokenizer: quoted alternatives come before \S+
